@@ -28,3 +28,11 @@ CLAIMS["C04"] = (
     "Trusts the declared qualifier sources (public times absolute, TimeCourse.time relative) and the conversion idiom; sibling back ends Diffrax/Assimulo are reported as INFO only (optional dependencies not installed, unconfirmed).",
     "DESIGN.md section 4 C04, Appendix A.2",
 )
+CLAIMS["C14"] = (
+    "structural ordering checks on make_protocol and the two protocol runners + the ABS/REL/DUR time-qualifier dataflow shared with C04",
+    "Decides for every protocol layout and time grid: (Q1) steps are keyed by the cumulative time including the step; (Q2) each loop iteration applies the row's values unconditionally before simulating it, t_start is taken once and all time arithmetic type-checks; "
+    "(Q3) the time-course form shifts the index to absolute time, applies the relative flag only to requested points, outer-joins boundaries and selects the half-open interval (t_start, t_end] before advancing. "
+    "These fix which parameter values govern which absolute interval; the dynamics inside a step are not decided.",
+    "Trusts pandas Index.join(how='outer') and iterrows order; continuing after update_variables inherits C04's T1 (now fixed).",
+    "DESIGN.md section 4 C14",
+)
